@@ -1,8 +1,11 @@
 From Coq Require Import List NArith Bool.
 From V.gen Require Consts.
 From V.C14 Require Model Proofs.
-From V.C17 Require Model.
-From V.C16 Require Import Model Proofs Obl Bound Chan Exec Time Compose Comp.
+From V.C15 Require Model Engine.
+From V.C17 Require Model Proofs Timed Ingress.
+From V.gen Require C16Tables.
+From V.Ts Require Model Proofs Answers.
+From V.C16 Require Import Model Proofs Obl Bound Chan Exec Time Compose Comp CompTime EngineRef HandleModel Handle Quorum Link.
 Import ListNotations.
 Open Scope N_scope.
 From V.C16 Require Import Properties.
@@ -109,9 +112,9 @@ Check (C16_seeds_from_table :
    length nodes = Nat.min k (length cands) /\
    (forall a b, In a nodes -> In b cands -> ~ In b nodes -> V.C14.Proofs.dlt target a b))).
 Check (C16_put_to_peers_named :
-  forall wc w q qr rk given,
+  forall wc w q qr rk len pub exp upd given,
   keys_ok wc ->
-  exists ps, fst (fst (elab wc w (UPutToPeers q qr rk given))) = EPutToPeers q qr ps /\
+  exists ps, fst (fst (elab wc w (UPutToPeers q qr rk len pub exp upd given))) = EPutToPeers q qr ps /\
              (forall x, In x ps -> In x given /\ x <> g_local (wc_g wc)) /\
              (NoDup given -> NoDup ps)).
 Check (C16_compose_cmds_ok :
@@ -119,30 +122,37 @@ Check (C16_compose_cmds_ok :
   keys_ok wc -> ufresh [] us -> Forall (ucmd_ok (wc_g wc)) us ->
   let es := elabs wc (w0 wc m (length (lkey wc))) us in
   fresh_ids [] es /\ cmds_ok (wc_g wc) es).
+Check (C16_store_invariant :
+  forall wc m L us,
+  1 <= V.C17.Model.max_per_key (wc_scfg wc) ->
+  V.C17.Proofs.Inv (wc_scfg wc) (w_store (fst (crun wc (w0 wc m L) us)))).
 Check (C16_get_record_local :
   forall wc w q qr rk target,
-  SI wc (w_store w) -> 1 <= wc_ttl wc ->
   let g := wc_g wc in
-  let hit := match V.C17.Model.find_rec rk (V.C17.Model.recs (w_store w)) with Some _ => true | None => false end in
+  let ans := V.C17.Ingress.kstep (kc_of wc) (w_ks w) (V.C17.Ingress.KCmdGetRecord rk) in
+  let hit := is_hit (snd ans) in
   let lookup := start_lookup g (w_st w) q LRec qr
-                  (lcfg g V.C15.Model.KRecord (needed_of g qr) (if hit then 1 else 0) (dists_of wc target))
+                  (lcfg g V.C15.Model.KRecord (needed_of g qr) (if hit then 1 else 0) [] (dists_of wc target))
                   (seeds_of wc (w_rt w) target) in
   fst (cstep wc w (UCmd q (UCGet qr rk) target)) =
   match qr, hit with
-  | QOne, true => (w, [OPartial q (g_local g) LOCAL_REC; OGetRecSuccess q])
-  | _, _ => (mkW lookup (w_rt w) (w_store w) (w_prov w) (w_timers w),
-             if hit then [OPartial q (g_local g) LOCAL_REC] else [])
+  | QOne, true => (mkW (w_st w) (w_rt w) (fst ans), [OPartial q (g_local g) LOCAL_REC; OGetRecSuccess q])
+  | _, _ => (mkW lookup (w_rt w) (fst ans), if hit then [OPartial q (g_local g) LOCAL_REC] else [])
   end).
 Check (C16_store_records_live :
-  forall wc m L us, 1 <= wc_ttl wc -> SI wc (w_store (fst (crun wc (w0 wc m L) us)))).
+  forall c st key, V.C17.Ingress.ks_dead st = false ->
+  (is_hit (snd (V.C17.Ingress.kstep c st (V.C17.Ingress.KCmdGetRecord key))) = true <->
+   live_rec (V.C17.IngressProofs.kstore st) (V.C17.Ingress.ks_now st) key) /\
+  (forall from, is_hit (snd (V.C17.Ingress.kstep c st (V.C17.Ingress.KGetValue from key))) = true <->
+   live_rec (V.C17.IngressProofs.kstore st) (V.C17.Ingress.ks_now st) key)).
 Check (C16_put_then_get :
-  forall wc m L us1 u us2 q rk target,
-  1 <= wc_ttl wc -> REC_LEN < V.C17.Model.max_size (wc_scfg wc) ->
-  N.of_nat (length (us1 ++ u :: us2)) <= V.C17.Model.max_records (wc_scfg wc) ->
-  stores wc (fst (crun wc (w0 wc m L) us1)) u rk ->
-  let w := fst (crun wc (w0 wc m L) (us1 ++ u :: us2)) in
-  fst (cstep wc w (UCmd q (UCGet QOne rk) target)) =
-  (w, [OPartial q (g_local (wc_g wc)) LOCAL_REC; OGetRecSuccess q])).
+  forall wc w us q rk r target,
+  V.C17.Model.find_rec rk (V.C17.Model.recs (w_store w)) = Some r -> no_write rk us ->
+  let w' := fst (crun wc w us) in
+  V.C17.Model.rec_expired r (w_clock w') = false -> V.C17.Ingress.ks_dead (w_ks w') = false ->
+  snd (fst (cstep wc w' (UCmd q (UCGet QOne rk) target))) =
+    [OPartial q (g_local (wc_g wc)) LOCAL_REC; OGetRecSuccess q] /\
+  w_st (fst (fst (cstep wc w' (UCmd q (UCGet QOne rk) target)))) = w_st w').
 Check (C16_compose_no_wait :
   forall wc m us q x p,
   1 <= g_alpha (wc_g wc) ->
@@ -223,50 +233,68 @@ Check (C16_inbound_isolated :
   (forall x, In x o -> x = OIncomingRecord \/ x = OIncomingProvider) /\
   (forall f, In f (futs s) -> f_q f <> None -> In f (futs s'))).
 Check (C16_inbound_reply :
-  forall wc w id rq b ps,
-  keys_ok wc -> V.C14.Proofs.Inv (lkey wc) (wc_K wc) (w_rt w) -> SI wc (w_store w) -> 1 <= wc_ttl wc ->
-  reply_of wc w (UInReq id rq) = Some (b, ps) ->
+  forall wc w id rq b ps pv,
+  keys_ok wc -> V.C14.Proofs.Inv (lkey wc) (wc_K wc) (w_rt w) -> V.C17.Ingress.ks_dead (w_ks w) = false ->
+  reply_of wc w (UInReq id rq) = Some (b, ps, pv) ->
   exists target,
-    (rq = IFindNode target \/ (exists rk, rq = IGetValue rk target) \/ rq = IGetProviders target) /\
+    (rq = IFindNode target \/ (exists rk, rq = IGetValue rk target) \/ (exists rk, rq = IGetProviders rk target)) /\
     ps = seeds_of wc (w_rt w) target /\ ~ In (g_local (wc_g wc)) ps /\
     (length ps <= N.to_nat (g_k (wc_g wc)))%nat /\
-    (b = true <-> exists rk, rq = IGetValue rk target /\ stored (w_store w) rk)).
+    (b = true <-> exists rk, rq = IGetValue rk target /\ live_rec (w_store w) (w_clock w) rk) /\
+    (forall rk, rq = IGetProviders rk target ->
+       pv = map (fun p => (peer_of_pid wc (V.C17.Model.p_id p), V.C17.Ingress.serve_addrs (kc_of wc) p))
+                (known_provs (w_ks w) rk) /\
+       Forall (fun p => V.C17.Model.prov_expired p (w_clock w) = false) (known_provs (w_ks w) rk)) /\
+    ((forall rk, rq <> IGetProviders rk target) -> pv = [])).
 Check (C16_serve_after_put :
-  forall wc m L us1 u us2 rk id target,
-  1 <= wc_ttl wc -> REC_LEN < V.C17.Model.max_size (wc_scfg wc) ->
-  N.of_nat (length (us1 ++ u :: us2)) <= V.C17.Model.max_records (wc_scfg wc) ->
-  stores wc (fst (crun wc (w0 wc m L) us1)) u rk ->
-  let w := fst (crun wc (w0 wc m L) (us1 ++ u :: us2)) in
-  inbound_read (w_st w) id = true ->
-  reply_of wc w (UInReq id (IGetValue rk target)) = Some (true, seeds_of wc (w_rt w) target)).
+  forall wc w us rk r id target,
+  V.C17.Model.find_rec rk (V.C17.Model.recs (w_store w)) = Some r -> no_write rk us ->
+  let w' := fst (crun wc w us) in
+  V.C17.Model.rec_expired r (w_clock w') = false -> V.C17.Ingress.ks_dead (w_ks w') = false ->
+  inbound_read (w_st w') id = true ->
+  reply_of wc w' (UInReq id (IGetValue rk target)) = Some (true, seeds_of wc (w_rt w') target, [])).
 Check (C16_manual_validation :
-  forall wc w u,
+  forall wc w u k r,
   wc_vauto wc = false ->
-  (exists e, u = UEv e) \/ (exists id rk, u = UInReq id (IPutValue rk)) ->
-  w_store (fst (fst (cstep wc w u))) = w_store w).
+  (exists e, u = UEv e) \/ (exists id rq, u = UInReq id rq) ->
+  V.C17.Model.find_rec k (V.C17.Model.recs (w_store (fst (fst (cstep wc w u))))) = Some r ->
+  V.C17.Model.find_rec k (V.C17.Model.recs (w_store w)) = Some r).
 Check (C16_auto_validation :
-  forall wc w id rk,
-  wc_vauto wc = true -> inbound_read (w_st w) id = true ->
-  w_store (fst (fst (cstep wc w (UInReq id (IPutValue rk))))) =
-  V.C17.Model.put (wc_scfg wc) (w_store w) (local_record wc rk)).
+  forall wc w id rk len pub ttl,
+  wc_vauto wc = true -> inbound_read (w_st w) id = true -> V.C17.Ingress.ks_dead (w_ks w) = false ->
+  pub <> V.C17.Ingress.PUB_INVALID ->
+  w_store (fst (fst (cstep wc w (UInReq id (IPutValue rk len pub ttl))))) =
+  V.C17.Model.put (wc_scfg wc) (w_store w)
+    (V.C17.Ingress.rec_of rk LOCAL_REC len pub (if ttl =? 0 then None else Some (w_clock w + ttl)))).
 Check (C16_manual_routing_table :
   forall wc m L us n,
   wc_auto wc = false ->
   In n (concat (w_rt (fst (crun wc (w0 wc m L) us)))) -> V.C14.Model.n_key n <> [] ->
   exists p, In (UAddKnownPeer p true) us /\ V.C14.Model.n_key n = pkey wc p).
 Check (C16_refresh_due :
-  forall wc m L us q rk target,
-  let w := fst (crun wc (w0 wc m L) us) in
-  In rk (w_timers w) ->
-  fst (fst (elab wc w (UFire q rk target))) =
-  match last_prov rk None us with
-  | Some qr => ECmd q (CRefresh qr) (dists_of wc target) (seeds_of wc (w_rt w) target)
+  forall wc w q rk wait target rest,
+  V.C17.Ingress.ks_dead (w_ks w) = false ->
+  take_due (w_clock w + wait) rk (w_timers w) = Some rest ->
+  fst (fst (elab wc w (UFire q rk wait target))) =
+  match V.C17.Timed.find_q rk (w_quorum w) with
+  | Some qc => ECmd q (CRefresh (qdecode qc)) (dists_of wc target) (seeds_of wc (w_rt w) target)
   | None => ENop
-  end /\
-  (last_prov rk None us <> None -> In rk (w_timers (fst (fst (cstep wc w (UFire q rk target))))))).
+  end).
+Check (C16_refresh_not_before_deadline :
+  forall wc w q rk wait target,
+  take_due (w_clock w + wait) rk (w_timers w) = None -> uvalid wc w (UFire q rk wait target) = false).
+Check (C16_refresh_rearms :
+  forall wc w q rk wait target rest qc,
+  1 <= wc_interval wc -> V.C17.Ingress.ks_dead (w_ks w) = false ->
+  take_due (w_clock w + wait) rk (w_timers w) = Some rest ->
+  V.C17.Timed.find_q rk (w_quorum w) = Some qc ->
+  snd (V.C17.Model.put_local_provider (wc_scfg wc) (w_store w) rk (lrank wc target) (w_clock w + wait)) = true ->
+  exists t, In t (w_timers (fst (fst (cstep wc w (UFire q rk wait target))))) /\ V.C17.Timed.tm_key t = rk).
 Check (C16_provided_has_timer :
-  forall wc m L us rk,
-  last_prov rk None us <> None -> In rk (w_timers (fst (crun wc (w0 wc m L) us)))).
+  forall wc m L us rk qc,
+  1 <= wc_interval wc -> valid_run wc (w0 wc m L) us ->
+  let w := fst (crun wc (w0 wc m L) us) in
+  V.C17.Timed.find_q rk (w_quorum w) = Some qc -> exists t, In t (w_timers w) /\ V.C17.Timed.tm_key t = rk).
 Check (C16_executor_sound :
   forall T k w r, res_ok k (fst (exec T k w r)) = true).
 Check (C16_executor_complete :
@@ -287,6 +315,164 @@ Check (C16_executor_silent_peer :
 Check (C16_executor_sent :
   forall T k w r,
   k = FReqEat \/ k = FSend -> sent_res (fst (exec T k w r)) = written T w).
+Check (C16_engine_is_C15 :
+  forall g m es, exists h, erel (eng (fst (run g (st0 m) es))) (xrunG [] h)).
+Check (C16_engine_calls_refine :
+  forall gc s xe q p, erel (eng s) xe ->
+  erel (eng (eng_resp_fail s q p)) (fst (V.C15.Engine.xstep gc xe (V.C15.Engine.XFail q p))) /\
+  erel (eng (eng_send_fail s q p)) (fst (V.C15.Engine.xstep gc xe (V.C15.Engine.XSendFail q p))) /\
+  erel (eng (eng_send_ok s q p)) (fst (V.C15.Engine.xstep gc xe (V.C15.Engine.XSendOk q p))) /\
+  erel (eng (eng_fail s q p)) (fst (V.C15.Engine.xstep gc xe (V.C15.Engine.XPeerFail q p))) /\
+  (forall m, match m with MAddProvider _ | MInvalid => False | _ => True end ->
+             erel (eng (eng_response s q p m))
+                  (fst (V.C15.Engine.xstep gc xe (V.C15.Engine.XResp q p (mk_of m) (reply_of_msg m))))) /\
+  (lookups_live s ->
+   peer_wanted s q p = match snd (V.C15.Engine.xstep gc xe (V.C15.Engine.XPeerAct q p)) with
+                       | V.C15.Engine.XNone => false | _ => true end)).
+Check (C16_engine_starts_refine :
+  forall g gc s xe q, erel (eng s) xe ->
+  (forall c dists seeds,
+     match xstart_of c with
+     | Some (t, qtag, qn, known, kp) =>
+         erel (eng (fst (on_cmd g s q c dists seeds)))
+              (fst (V.C15.Engine.xstep (gc_of g dists) xe (V.C15.Engine.XStart q t qtag qn known seeds kp)))
+     | None => eng (fst (on_cmd g s q c dists seeds)) = eng s
+     end) /\
+  (forall qr ps, erel (aset q (QToPeers qr ps) (eng s))
+                      (fst (V.C15.Engine.xstep gc xe (V.C15.Engine.XStart q V.C15.Engine.TPutRecordToPeers
+                                                        (qtag_of qr) (qn_of qr) 0 ps [])))) /\
+  (forall pv l qr, erel (aset q (QTrack pv (ndedup l) 0 (clamp qr (N.of_nat (length l)))) (eng s))
+                        (fst (V.C15.Engine.xstep gc xe (V.C15.Engine.XStart q (tt_of pv) (qtag_of qr) (qn_of qr) 0 l []))))).
+Check (C16_engine_serve_refines :
+  forall gc s xe q, erel (eng s) xe -> NoDup (map fst (eng s)) ->
+  exists e', erel e' (fst (V.C15.Engine.xstep gc xe (V.C15.Engine.XNext (now s) (q + 1)))) /\
+             serve s q = on_action (w_eng s e') (snd (V.C15.Engine.xstep gc xe (V.C15.Engine.XNext (now s) (q + 1))))).
+Check (C16_handle_ids_fresh :
+  forall cap ops, ufresh [] (snd (fst (hrun (h0 cap) ops)))).
+Check (C16_handle_one_terminal :
+  forall wc m cap ops q,
+  let us := snd (fst (hrun (h0 cap) ops)) in
+  let W0 := w0 wc m (length (lkey wc)) in
+  (terminals q (snd (crun wc W0 us)) + (if live q (w_st (fst (crun wc W0 us))) then 1 else 0) =
+   cstarted wc W0 q us)%nat /\
+  (cstarted wc W0 q us <= ustarted q us)%nat /\ (cstarted wc W0 q us <= 1)%nat).
+Check (C16_handle_try_full :
+  forall cap ops0 b ops1,
+  let h := fst (fst (hrun (h0 cap) ops0)) in
+  h_closed h || full h = true -> draws b = true ->
+  snd (hcall h true b) = RErr /\
+  h_chan (fst (hcall h true b)) = h_chan h /\ h_park (fst (hcall h true b)) = h_park h /\
+  let us := snd (fst (hrun (h0 cap) (ops0 ++ OCall true b :: ops1))) in
+  ustarted (h_next h) us = 0%nat /\
+  forall wc m, terminals (h_next h) (snd (crun wc (w0 wc m (length (lkey wc))) us)) = 0%nat).
+Check (C16_handle_fifo :
+  (forall h b, h_closed h || full h = false ->
+     snd (hcall h true b) = ROk (if draws b then Some (h_next h) else None) /\
+     h_chan (fst (hcall h true b)) = h_chan h ++ [with_id b (h_next h)]) /\
+  (forall h tr b h' r, hcall h tr b = (h', r) ->
+     h_chan h' = h_chan h \/ h_chan h' = h_chan h ++ [with_id b (h_next h)]) /\
+  (forall h c t, h_chan h = c :: t ->
+     snd (hrecv h) = Some c /\ h_chan (fst (hrecv h)) = t /\ h_park (fst (hrecv h)) = h_park h)).
+Check (C16_command_starts_in_sync :
+  forall wc w,
+  Forall (fun c => option_map fst (loop_row (cmd_name c)) = Some (start_name (fst (fst (elab wc w (h2u c))))))
+         cmd_samples).
+Check (C16_events_classified :
+  map (fun r => (fst r, has_field F_QUERY_ID r)) V.gen.C16Tables.events =
+    map (fun x => (fst (fst x), snd (fst x))) tbl_events /\
+  map (fun x => fst (fst x)) (filter (fun x => snd (fst x) && negb (snd x)) tbl_events) = EV_PARTIAL /\
+  map (fun x => fst (fst x)) (filter (fun x => negb (snd (fst x))) tbl_events) =
+    EV_NOID /\
+  forall x, In x tbl_events -> snd x = true -> snd (fst x) = true).
+Check (C16_tables_in_sync :
+  V.gen.C16Tables.quorum = tbl_quorum /\
+  map fst V.gen.C16Tables.commands = tbl_commands /\
+  V.gen.C16Tables.methods = tbl_methods /\
+  map (fun r => (fst (fst r), snd (fst r))) V.gen.C16Tables.actions = tbl_action_events /\
+  V.gen.C16Tables.need = tbl_need /\
+  V.gen.C16Tables.results = tbl_results /\
+  V.gen.C16Tables.transports = tbl_transports /\
+  V.gen.C16Tables.refresh = tbl_refresh /\
+  V.gen.C16Tables.dial_arms = tbl_dial_arms /\
+  map (fun r : String.string * list String.string * list String.string * list String.string => (fst (fst (fst r)), snd (fst r)))
+      V.gen.C16Tables.loop_cmds = tbl_cmd_store /\
+  map (fun r : String.string * list String.string * list String.string * list String.string => (fst (fst (fst r)), snd r))
+      (filter (fun r : String.string * list String.string * list String.string * list String.string =>
+                 match snd r with [] => false | _ => true end) V.gen.C16Tables.loop_cmds) =
+    GETRECORD_ROW).
+Check (C16_quorum_variants :
+  forall wc w q,
+  (forall qr rk len e t,
+     quorum_of_ev q (fst (fst (elab wc w (UCmd q (UCPut qr rk len e) t)))) = Some qr) /\
+  (forall qr rk t,
+     quorum_of_ev q (fst (fst (elab wc w (UCmd q (UCProv qr rk) t)))) = Some qr) /\
+  (forall qr rk len pb e upd given,
+     quorum_of_ev q (fst (fst (elab wc w (UPutToPeers q qr rk len pb e upd given)))) = Some qr) /\
+  (forall rk wait t ks' qc,
+     fire1 wc (age (w_ks w) wait) rk (lrank wc t) = Some (ks', Some qc) ->
+     quorum_of_ev q (fst (fst (elab wc w (UFire q rk wait t)))) = Some (qdecode qc))).
+Check (C16_quorum_clamp :
+  (forall h len,
+     1 <= clamp (q_of h) len /\
+     match h with
+     | HOne => clamp (q_of h) len = 1
+     | HAll => clamp (q_of h) len = N.max len 1
+     | HN n => (Npos n <= len -> clamp (q_of h) len = Npos n) /\
+               (1 <= len -> len <= Npos n -> clamp (q_of h) len = len) /\
+               (len = 0 -> clamp (q_of h) len = 1)
+     end) /\
+  (forall h, q_of h <> QN 0) /\ (forall c, qdecode c <> QN 0)).
+Check (C16_success_needs_a_send :
+  forall g m es q,
+  fresh_ids [] es -> cmds_ok g es ->
+  (forall qr, find_quorum q es = Some qr -> qr <> QN 0) ->
+  let outs := snd (run g (st0 m) es) in
+  In (OPutSuccess q) outs \/ In (OProvSuccess q) outs ->
+  exists targets p, In (OTrack q targets) outs /\ In p targets /\ In (q, p) (put_sends g (st0 m) es)).
+Check (C16_handle_quorum_honest :
+  forall wc m cap ops q,
+  keys_ok wc -> ops_ok (wc_g wc) ops ->
+  let us := snd (fst (hrun (h0 cap) ops)) in
+  let W0 := w0 wc m (length (lkey wc)) in
+  let outs := snd (crun wc W0 us) in
+  let es := elabs wc W0 us in
+  In (OPutSuccess q) outs \/ In (OProvSuccess q) outs ->
+  exists targets qr S,
+    find_quorum q es = Some qr /\ qr <> QN 0 /\ In (OTrack q targets) outs /\ NoDup S /\
+    clamp qr (N.of_nat (length targets)) <= N.of_nat (length S) /\ (1 <= length S)%nat /\
+    (forall p, In p S -> In (q, p) (put_sends (wc_g wc) (st0 m) es) /\ In p targets)).
+Check (C16_compose_bounded_time :
+  forall wc m D us0 ua u ub,
+  1 <= g_alpha (wc_g wc) ->
+  let W0 := w0 wc m (length (lkey wc)) in
+  let w1 := fst (crun wc W0 us0) in
+  let es1 := elabs wc w1 (ua ++ u :: ub) in
+  is_tick (fst (fst (elab wc (fst (crun wc w1 ua)) u))) = false ->
+  fair_run (wc_g wc) (w_st w1) es1 ->
+  timed D (wc_g wc) (w_st w1) (restamp (now (w_st w1)) [] (okeys (w_st w1))) es1 ->
+  now (w_st (fst (crun wc w1 ua))) <= now (w_st w1) + D * N.of_nat (S (length (work (elabs wc w1 ua))))).
+Check (C16_compose_bounded_time_budget :
+  forall wc m D U us0 ua u ub,
+  keys_ok wc -> 1 <= g_alpha (wc_g wc) ->
+  (forall p, In p (UNKNOWN :: map fst (wc_keys wc)) -> In p U) ->
+  ufresh [] (us0 ++ ua ++ u :: ub) -> Forall (ucmd_ok (wc_g wc)) us0 -> Forall (uev_in_U U) (us0 ++ ua ++ u :: ub) ->
+  let W0 := w0 wc m (length (lkey wc)) in
+  let w1 := fst (crun wc W0 us0) in
+  let es1 := elabs wc w1 (ua ++ u :: ub) in
+  is_tick (fst (fst (elab wc (fst (crun wc w1 ua)) u))) = false ->
+  fair_run (wc_g wc) (w_st w1) es1 ->
+  timed D (wc_g wc) (w_st w1) (restamp (now (w_st w1)) [] (okeys (w_st w1))) es1 ->
+  now (w_st (fst (crun wc w1 ua))) <= now (w_st w1) + D * N.of_nat (budget (length U) (wc_g wc) (elabs wc W0 us0))).
+Check (C16_link_service_feasible :
+  (forall ka T n0 tr,
+     V.Ts.Proofs.nowrap (V.Ts.Model.init ka T n0) tr -> feasible_along (V.Ts.Model.init ka T n0) [] tr) /\
+  (forall m os s16 p id,
+     step_feasible m os -> psub s16 = m -> In (V.Ts.Model.OSub p (Some id)) os -> feasible s16 (EOpened p id))).
+Check (C16_link_dial_answers :
+  forall s p a acts,
+  aget p (pdial s) = Some (a :: acts) ->
+  productive s (EDialFail p) /\
+  (aget p (conn s) = None -> aget p (peers s) = None -> forall alive, productive s (EEstablished p alive))).
 Check (C16_default_config :
   1 <= V.gen.Consts.PARALLELISM_FACTOR /\ 0 < V.gen.Consts.KAD_READ_TIMEOUT_SECS /\
   0 < V.gen.Consts.KAD_WRITE_TIMEOUT_SECS).
